@@ -288,6 +288,16 @@ def c14(report):
             if bkw["np_"] is not None:
                 bkw["n_jobs"] = 1
     ecf.defer(xjobs, by_clause("cross.", "call.exception"))
+    # a bandit created WITHOUT a binarizer whose first binarizer arrives with add_arm, against pre-converted rewards
+    def late(lp, np_, i):
+        return [dict(bin_name="none", addarm_bin="flip", binary_rewards=True), dict(preconv="ident", addarm_bin="flip", binary_rewards=True)]
+    ljobs = cross_jobs(report.tier, report.seed + 1, late, "exact", FULL_OPS, only=lambda c: c[0] == "ts", tag="-c14late",
+                       sims=report.tier == "thorough")
+    for job in ljobs:
+        for bkw in job["bindings"]:
+            if bkw["np_"] is not None:
+                bkw["n_jobs"] = 1
+    ecf.defer(ljobs, by_clause("cross.", "call.exception"))
     ecf.flush(report)
     # recorded executions with a binarizer installed: the stored (converted) rewards and every query result are validated
     # by TraceNbhd.tla, whose history carries Binz(binarizer, arm, reward) applied exactly once
@@ -989,7 +999,7 @@ def replay(prop, path):
                                      backend=b["backend"], data_seed=b["data_seed"], dims=b["dims"], bin_name=b["bin"],
                                      epsilon=b["epsilon"], container=b["container"], perm_seed=b.get("perm_seed"),
                                      shift=b.get("shift", 0), scale=b.get("scale", 1), preconv=b.get("preconv"),
-                                     addarm_bin=b.get("addarm_bin"))
+                                     addarm_bin=b.get("addarm_bin"), binary_rewards=b.get("binary_rewards", False))
         rep = cf.Replay(binding, feat=finding.get("consts", {}).get("FeatSets") or finding.get("consts", {}).get("Feat", {}))
         if finding.get("path_mode"):
             rep.run_paths(finding["trace"])
